@@ -247,6 +247,21 @@ func allEntries(fs []xFile) []string {
 	return out
 }
 
+// entry name -> name of its enum type
+func entryEnum(fs []xFile) map[string]string {
+	m := map[string]string{}
+	for _, f := range fs {
+		for _, e := range f.enums {
+			for _, x := range e.entries {
+				if _, ok := m[x.name]; !ok {
+					m[x.name] = e.name
+				}
+			}
+		}
+	}
+	return m
+}
+
 var gen18Root string
 
 func gen18Dir() string {
@@ -300,6 +315,31 @@ func describe(d *dialect.Dialect) string {
 	return strings.Join(out, ";")
 }
 
+type textEnum interface {
+	MarshalText() ([]byte, error)
+}
+type textEnumP interface {
+	UnmarshalText([]byte) error
+}
+
+// textOK: a non-zero constant is rendered as its name, and the name parses back to the constant
+func textOK(v textEnum, p textEnumP, name string) string {
+	if reflect.ValueOf(v).Uint() == 0 {
+		return "T" // zero of a bitmask enum is rendered as 0: not judged here
+	}
+	b, err := v.MarshalText()
+	if err != nil || string(b) != name {
+		return "F(marshal=" + string(b) + ")"
+	}
+	if err := p.UnmarshalText([]byte(name)); err != nil {
+		return "F(unmarshal-error)"
+	}
+	if reflect.ValueOf(p).Elem().Uint() != reflect.ValueOf(v).Uint() {
+		return "F(unmarshal-value)"
+	}
+	return "T"
+}
+
 func main() {
 %s
 }
@@ -349,8 +389,10 @@ func runGenBatch(jobs []*genJob) {
 			alias := fmt.Sprintf("p%d", j.k)
 			imports = append(imports, fmt.Sprintf("\t%s \"gen18/d%d/%s\"", alias, j.k, filepath.Base(j.pkg)))
 			var ents []string
+			ee := entryEnum(j.fs)
 			for _, e := range allEntries(j.fs) {
-				ents = append(ents, fmt.Sprintf("fmt.Sprintf(\"%s=%%d\", uint64(%s.%s))", e, alias, e))
+				// value of the constant, and whether its text form is its XML name and parses back to it (C19 on generated code)
+				ents = append(ents, fmt.Sprintf("fmt.Sprintf(\"%s=%%d:%%s\", uint64(%s.%s), textOK(%s.%s, new(%s.%s), %q))", e, alias, e, alias, e, alias, ee[e], e))
 			}
 			es := "\"\""
 			if len(ents) > 0 {
@@ -521,6 +563,10 @@ func randEnumValue(r *rngT, bitmask bool, i int) (string, uint64) {
 			return fmt.Sprintf("2**%d", i), v
 		}
 	}
+	if r.Intn(4) == 0 {
+		// mavschema.xsd: a run of digits is a decimal number, leading zeros included ("010" is ten)
+		return strings.Repeat("0", 1+r.Intn(2)) + strconv.FormatUint(v, 10), v
+	}
 	return strconv.FormatUint(v, 10), v
 }
 
@@ -531,6 +577,7 @@ func genDialectSet(r *rngT, serial int) []xFile {
 	msgNames := map[string]bool{}
 	ids := map[int]bool{}
 	entryNames := map[string]bool{}
+	enumIsBitmask := map[string]bool{}
 	var enumNames []string
 	enumInt := []string{"uint8_t", "uint16_t", "uint32_t", "int32_t", "uint64_t", "int8_t"}
 	for i := range fs {
@@ -565,6 +612,7 @@ func genDialectSet(r *rngT, serial int) []xFile {
 			}
 			fs[i].enums = append(fs[i].enums, en)
 			enumNames = append(enumNames, en.name)
+			enumIsBitmask[en.name] = en.bitmask
 		}
 		// an enum extended by a later-processed (including) file: same name, further entries
 		if i < nf-1 && len(enumNames) > 0 && r.Intn(4) == 0 {
@@ -576,7 +624,12 @@ func genDialectSet(r *rngT, serial int) []xFile {
 					continue
 				}
 				entryNames[nm] = true
-				en.entries = append(en.entries, xEntry{nm, fmt.Sprint(1000 + 10*i + k)})
+				if enumIsBitmask[base] {
+					// a bitmask enum is extended by further flags
+					en.entries = append(en.entries, xEntry{nm, fmt.Sprint(uint64(1) << uint(56+2*i+k))})
+				} else {
+					en.entries = append(en.entries, xEntry{nm, fmt.Sprint(1000 + 10*i + k)})
+				}
 			}
 			if len(en.entries) > 0 {
 				fs[i].enums = append(fs[i].enums, en)
